@@ -36,7 +36,8 @@ class Scratch:
         return self.path
 
     def __exit__(self, *a):
-        shutil.rmtree(self.path, ignore_errors=True)
+        if not os.environ.get("MBV_KEEP_SCRATCH"):
+            shutil.rmtree(self.path, ignore_errors=True)
 
 
 @dataclass
